@@ -84,6 +84,13 @@ def run(eng, rep, tier):
                 if isinstance(sub, ast.Call) and getattr(sub.func, "id", "") == "str" and sub.args and \
                         isinstance(sub.args[0], ast.Name):
                     ctr_names.add(sub.args[0].id)
+                elif isinstance(sub, ast.FormattedValue) and isinstance(sub.value, ast.Name) and \
+                        sub.value.id not in ("SUBS_SUFFIX",) and not sub.value.id.isupper() and \
+                        not isinstance(getattr(sub.value, "ctx", None), ast.Store) and sub.value.id != "variable":
+                    ctr_names.add(sub.value.id)
+                elif isinstance(sub, ast.Call) and getattr(sub.func, "id", "") == "next" and sub.args and \
+                        isinstance(sub.args[0], ast.Name):
+                    ctr_names.add(sub.args[0].id)          # a monotone iterator: `numbers = count()`
     resets = [s for s in ast.walk(fi.node) if isinstance(s, ast.Assign) and any(isinstance(tg, ast.Name) and tg.id in ctr_names
                                                                                 for tg in s.targets)]
     if not ctr_names:
